@@ -1,12 +1,16 @@
 (** C15 — Recorded simulation data mirrors what actually happened.  Statements only.
-    PARTIAL: proved are: records are only ever appended during an action (never removed or rewritten); every record is
-    written with the state of that moment (receive / level / failure / resource records); executed events are appended to
-    the dispatch log in execution order (C01).  "Exactly one record per occurrence" and "counters = number of records" over
-    whole runs are decided by the record monitor and by the lock-step (which compares the full data log after every event). *)
+    Proved: records are only ever appended during an action (never removed or rewritten); every record is written with the
+    state of that moment (receive / level / failure / resource records); executed events are appended to the dispatch log in
+    execution order (C01); and, linking the devices to the data log (Proofs/FloorLog.v, FloorLogInv.v), for every state
+    reached without a Python exception, including every state inside a run: **a source's produced-parts counter equals the
+    number of its supplied-part records** and **the last recorded level of a buffer is its level**.
+    PARTIAL: "exactly one received / produced / failure / work-order record per occurrence", the sink counter (it counts parts,
+    the records count hand-overs: equal only without batches) and "last resource record = pool" over whole runs are decided by
+    the record monitor and by the lock-step (which compares the full data log after every event). *)
 From Coq Require Import ZArith List Bool Lia Sorting.Permutation Sorting.Sorted.
 From RecordUpdate Require Import RecordUpdate.
 From SimVerif Require Import Model.Base Model.Env Model.FamEnv Model.RM Model.Maint Model.FloorTypes Model.Floor Model.FamFloor.
-From SimVerif Require Import Proofs.RMInv Proofs.EnvInv Proofs.EnvPause Proofs.FloorSteps Proofs.FloorInv Proofs.FloorSys Proofs.FloorProc Proofs.FloorFlow Proofs.FloorRes.
+From SimVerif Require Import Proofs.RMInv Proofs.EnvInv Proofs.EnvPause Proofs.FloorSteps Proofs.FloorInv Proofs.FloorSys Proofs.FloorProc Proofs.FloorFlow Proofs.FloorRes Proofs.FloorLink Proofs.FloorIdle Proofs.FloorLog Proofs.FloorLogInv.
 Import ListNotations.
 Open Scope Z_scope.
 
@@ -48,3 +52,50 @@ Print Assumptions C15_level_counts_parts.
 Example C15_nonvacuous :
   f_out (rec_part (mkFw [] [] init_rs [] 0 [] [] 0) L_RECEIVED 3 40 (ISingle (mkPart 9 16 8 [] []))) = [FData L_RECEIVED 3 [40; 9; 8; 16]].
 Proof. reflexivity. Qed.
+
+(** * the devices and the data log agree, in every state reached without an exception (also inside a run) *)
+Theorem C15_supplied_counter_is_record_count : forall sc s d,
+  f_out (fq_world sc) = [] -> reach_in sc s ->
+  d_produced (getd (fst s) d) = d_produced (getd (fq_world sc) d) + cntrec L_SUPPLIED d (datalog (snd s)).
+Proof. exact supplied_counter_is_record_count. Qed.
+
+Theorem C15_last_level_record_is_level : forall sc s d,
+  f_out (fq_world sc) = [] -> reach_in sc s ->
+  match lastrec L_LEVEL d (datalog (snd s)) with
+  | Some p => exists t, p = [t; d_level (getd (fst s) d)]
+  | None => d_level (getd (fst s) d) = d_level (getd (fq_world sc) d)
+  end.
+Proof. exact last_level_record_is_level. Qed.
+
+(** the premise holds for every scenario the decoder builds *)
+Theorem C15_decoded_scenarios_start_clean : forall l, f_out (fq_world (decode_fl_scn l)) = [].
+Proof. exact decoded_no_pending_output. Qed.
+
+(** the records of the resource manager and the maintainers never carry the supplied / level labels *)
+Theorem C15_manager_labels : forall nw r s, rlab s -> rlab (fst (reserve nw r s)).
+Proof. exact rlab_reserve. Qed.
+
+Print Assumptions C15_supplied_counter_is_record_count.
+Print Assumptions C15_last_level_record_is_level.
+Print Assumptions C15_decoded_scenarios_start_clean.
+Print Assumptions C15_manager_labels.
+
+(** Non-vacuity: source (cycle 8) -> buffer (capacity 4) -> processor (cycle 24) -> sink; after 13 executed events the source
+    has supplied 4 parts (4 records) and the buffer holds 2, its last level record (written at time 32) says 2. *)
+Definition c15_world : fw :=
+  mkFw [(1, (blank_dev KSource) <| d_down := [2] |> <| d_cycle := 8 |>);
+        (2, (blank_dev KBuffer) <| d_up := [1] |> <| d_down := [3] |> <| d_capacity := Some 4 |>);
+        (3, (blank_dev KProcessor) <| d_up := [2] |> <| d_down := [4] |> <| d_cycle := 24 |>);
+        (4, (blank_dev KSink) <| d_up := [3] |>)] [] init_rs [] 10 [] [] 0.
+Definition c15_sc : fl_scn := mkFlScn 1 1 c15_world [] [].
+Definition c15_s0 := fst (do_fxop c15_sc (c15_world, init_env) FXInit).
+Example C15_log_nonvacuous :
+  f_out (fq_world c15_sc) = [] /\ reach_in c15_sc (fx_steps c15_sc 13 c15_s0) /\
+  d_produced (getd (fst (fx_steps c15_sc 13 c15_s0)) 1) = 4 /\ cntrec L_SUPPLIED 1 (datalog (snd (fx_steps c15_sc 13 c15_s0))) = 4 /\
+  d_level (getd (fst (fx_steps c15_sc 13 c15_s0)) 2) = 2 /\ lastrec L_LEVEL 2 (datalog (snd (fx_steps c15_sc 13 c15_s0))) = Some [32; 2].
+Proof.
+  assert (R0 : reach_ok c15_sc c15_s0).
+  { apply ro_init; [vm_compute; reflexivity|]. unfold c15_s0. vm_compute. reflexivity. }
+  split; [reflexivity|]. split; [apply reach_ok_in, fx_steps_reach; [exact R0|vm_compute; reflexivity]|].
+  repeat split; vm_compute; reflexivity.
+Qed.
